@@ -121,5 +121,36 @@ def Breaker.Spelled.params (s : Breaker.Spelled) : Option Breaker.Params :=
   | some p, some t => some { rate := s.rate, period := p, ttl := t, minCalls := s.minCalls }
   | _, _ => none
 
+/-- `rate_limit(limit, period, ttl)` where each duration may also be a callable of the call's arguments
+(`Ttl.Spelling`: plain, or `callable f` with `f args result` what the callable returns for these arguments) -/
+structure Rate.SpelledC where
+  limit : Nat
+  period : Ttl.Spelling
+  ttl : Option Ttl.Spelling
+
+/-- what one call made with arguments `args` works with:
+`_ttl = ttl_to_seconds(ttl, *args, **kwargs, with_callable=True)`, `_period = ttl_to_seconds(period, ...)` -
+each of the two resolved on its own, whether the other one is a callable or not -/
+def Rate.SpelledC.paramsAt (s : Rate.SpelledC) (args : Nat) : Option Rate.Params :=
+  match s.period.ticks args 0, s.ttl with
+  | some p, none => some ⟨s.limit, p, none⟩
+  | some p, some t => (t.ticks args 0).map fun tt => ⟨s.limit, p, some tt⟩
+  | none, _ => none
+
+/-- `slice_rate_limit(limit, period)` with a possibly callable period -/
+structure SlideRate.SpelledC where
+  limit : Nat
+  period : Ttl.Spelling
+
+def SlideRate.SpelledC.paramsAt (s : SlideRate.SpelledC) (args : Nat) : Option SlideRate.Params :=
+  (s.period.ticks args 0).map fun p => ⟨s.limit, p⟩
+
 end Decor
+
+namespace Ttl
+/-- a possibly callable spelling denotes `t` ticks for a call with arguments `args` -/
+inductive DenotesAt (args : Nat) : Spelling → Nat → Prop
+  | plain {p t} : Denotes p t → DenotesAt args (.plain p) t
+  | callable {f t} : Denotes (f args 0) t → DenotesAt args (.callable f) t
+end Ttl
 end CashewsVerif
